@@ -288,7 +288,8 @@ def run(chk):
     chk.rule = ('random RustType trees, depth 1-5, leaves = the 14 primitives of the quantifier, 11 user type names, generic parameters of a random '
                 'generics list; containers Vec / [T;N] / &[T] / Option / HashMap (4% generic-parameter keys) / user generics with 1-3 arguments; '
                 'configuration = random prefix (Kotlin, Swift), no_pointer_slice (Go), 0-3 type_mappings keyed by user types, generic parameters, '
-                'primitives, container instances (Rust spelling and the tool\'s Display spelling) and unrelated keys; non-trivial = distinct '
+                'primitives, container instances (Rust spelling and the tool\'s Display spelling) and unrelated keys; in the use-site phases 7 of 9 Go configurations carry an '
+                'uppercase_acronyms list (id / ID, url / uuid / api / foo / go / Time / xy, yZw: user types, mapped names, a non-idempotent pair; no / it / con / ba / po: occurrences followed by a lower-case letter, which must stay); non-trivial = distinct '
                 '(language, type of depth >= 2, configuration, generics) inside dom and outside every known class whose real text parsed to the expected tree')
     chk.assumptions = ['syn is not modelled: the front-end model receives the AST produced by harness/libdrive/src/ast.rs from the same text',
                        'what a target type name MEANS (JSON category, value range) is the reviewed table c05_target_info in Spec/C05Spec.v; no target-language compiler is installed',
